@@ -1,5 +1,9 @@
 """C04 — daemon death at any point, and its restart, never harm attached clients."""
-from . import shm
+import os
+import shutil
+import struct
+
+from . import c16, client, protocol, shm
 from .common import NPROC, finish
 
 
@@ -25,6 +29,28 @@ def run(ctx):
     pagg, pviol = shm.run_proc(ctx, 10 if q else 180)
     ctx.log("proc (SIGKILL/restart of real writer processes, guard off): %s" % pagg)
     viol += pviol
+    # A client that waits for the service: it retries its attach all through the window in which
+    # the file exists but is not usable (a daemon that died while initialising, or one that wiped
+    # and has not published yet); once the restarted daemon has repaired the file it must attach.
+    csim = client.build_clientsim(ctx, True)
+    wd = "/dev/shm/cbverif-c04-wait-%d" % os.getpid()
+    os.makedirs(wd, exist_ok=True)
+    try:
+        valid = protocol.encode((10, 0), (20, 0), 5, 1000, 0, 1, generation=4, magic=c16.real_magic(ctx, csim))
+        wiped = bytearray(valid)
+        struct.pack_into("=H", wiped, 14, 0)
+        left = {"empty": b"", "magic-only": valid[:8], "header-only": bytes(wiped[:16]), "header-and-half-record": bytes(wiped[:40]), "wiped-not-published": bytes(wiped), "valid": valid}
+        for n, c in left.items():
+            with open(os.path.join(wd, n), "wb") as f:
+                f.write(c)
+        waiting = [os.path.join(wd, n) for n in left if n != "valid"]
+        wviol, wstats, _ = c16.open_stress(ctx, csim, None, waiting, waiting, os.path.join(wd, "valid"), simultaneous=0, tag="C04")
+        for v in wviol:
+            v["sig"] = "waiting-client-" + v["sig"]
+        viol += wviol
+        ctx.log("waiting client: %s" % wstats)
+    finally:
+        shutil.rmtree(wd, ignore_errors=True)
     inconclusive = None
     if crashed:
         pass
@@ -49,6 +75,7 @@ def run(ctx):
         "sched": cov,
         "miri": dict(magg, processes_lost=mlost),
         "proc": pagg,
+        "waiting_client": dict(wstats, states=sorted(left)),
     }
     finish(ctx, coverage, viol, inconclusive, assumptions=["crash points are the hook sites (between every shared-memory or file operation), not every machine instruction",
                                                           "a stop drops the writer's mapping only (munmap), the file keeps whatever state the stop left, as with a killed process"])
